@@ -8,6 +8,7 @@ import MVoro.Model.Num
 import MVoro.Model.InSphere
 import MVoro.Gen.InSphere
 import MVoro.Model.Oracle
+import MVoro.Model.Tess
 
 open MVoro
 
@@ -86,6 +87,68 @@ def opTess (args : List String) : String :=
         if mask.getD i false then some (Oracle.cellStr t (Oracle.buildCell t i brute) verts) else none
       s!"NC {cells.length} " ++ " ".intercalate cells ++ s!" T {ratStr (Oracle.boxVolume t)}"
 
+/-- `PI k {C idx np {right shifted valid hastet}}` -/
+def parsePlaneInfo (ts : List String) : Option (List Tess.CellInfo) :=
+  let rec planes : Nat → List String → Option (List Tess.PlaneInfo × List String)
+    | 0, ts => some ([], ts)
+    | k + 1, r :: s :: v :: h :: ts => do
+      let right : Option Nat ← (if r == "-" then some none else r.toNat?.map some)
+      let (ps, ts) ← planes k ts
+      pure (⟨right, s == "1", v == "1", h == "1"⟩ :: ps, ts)
+    | _, _ => none
+  let rec cells : Nat → List String → Option (List Tess.CellInfo)
+    | 0, _ => some []
+    | k + 1, "C" :: idx :: np :: ts => do
+      let idx ← idx.toNat?
+      let np ← np.toNat?
+      let (ps, ts) ← planes np ts
+      let cs ← cells k ts
+      pure (⟨idx, ps⟩ :: cs)
+    | _, _ => none
+  match ts with
+  | "PI" :: k :: ts => do
+    let k ← k.toNat?
+    cells k ts
+  | _ => none
+
+def optNatStr : Option Nat → String
+  | none => "-"
+  | some n => toString n
+
+def faceStr (f : Tess.Face) : String := s!"{f.left} {optNatStr f.right} {if f.shifted then 1 else 0}"
+
+def vorStr (v : Tess.Voronoi) : String :=
+  let cs := v.cells.map fun c =>
+    let nb := Tess.neighbourIds v c
+    s!"{c.offset} {c.count} {nb.length} " ++ " ".intercalate (nb.map toString)
+  s!"NC {v.cells.length} " ++ " ".intercalate cs ++ s!" NF {v.faces.length} " ++ " ".intercalate (v.faces.map faceStr)
+    ++ s!" CONN {v.conn.length} " ++ " ".intercalate (v.conn.map toString)
+
+/-- op `routes`: the bookkeeping model on the plane facts of the constructed cells -/
+def opRoutes (args : List String) : String :=
+  match parseTessIn args with
+  | none => "bad-op"
+  | some (t0, rest) =>
+    let n := t0.gens.size
+    match rest with
+    | "M" :: m :: rest =>
+      let mask : Option (List Bool) := if m == "-" then none else some (m.toList.map (· == '1'))
+      match parsePlaneInfo rest with
+      | none => "bad-op"
+      | some cells =>
+        let cellOf (i : Nat) : Tess.CellInfo := (cells.find? (·.idx == i)).getD ⟨i, []⟩
+        let active : List Bool := match mask with | none => List.replicate n true | some m => m
+        let d0 := Tess.build (fun _ => 0) n cellOf mask
+        let d1 := Tess.build id n cellOf mask
+        let v1 := Tess.buildViaIntegrator id n cellOf mask
+        let ns := Tess.integratorFacesNonSym n cellOf active
+        let sy := Tess.integratorFacesSym n cellOf active
+        let zd := Tess.zipData n active (List.range n)
+        s!"D0 {vorStr d0} D1 {vorStr d1} V1 {vorStr v1} NS {ns.length} " ++ " ".intercalate (ns.map faceStr)
+          ++ s!" SY {sy.length} " ++ " ".intercalate (sy.map faceStr)
+          ++ s!" ZD {zd.length} " ++ " ".intercalate (zd.map fun (i, d) => s!"{i} {d}")
+    | _ => "bad-op"
+
 def handle (line : String) : String :=
   let line := line.trimAscii.toString
   let inputPart := (line.splitOn " | ").headD ""
@@ -95,6 +158,7 @@ def handle (line : String) : String :=
       | "insphere" => opInsphere args
       | "tess" => opTess args
       | "cells" => opTess args
+      | "routes" => opRoutes args
       | _ => "unknown-op"
     id ++ " " ++ res
   | _ => "? bad-line"
